@@ -51,7 +51,7 @@ Definition mbr_read (s : mbr) (m : nat) : list A * option rerr * mbr :=
     match m with
     | O => ([], None, s)
     | _ =>
-      let m' := if Z.of_nat m >? m_n s + 1 then Z.to_nat (m_n s + 1) else m in
+      let m' := if Z.of_nat m - 1 >? m_n s then Z.to_nat (m_n s + 1) else m in
       let '(d, e, u') := u_read (m_u s) m' in
       let k := Z.of_nat (length d) in
       if k <=? m_n s
@@ -79,7 +79,9 @@ Definition mbr_init (limit : Z) (body : list A) (script : list nat) (eofd : bool
 
 (* maxBytesReader.Read with the arithmetic Go performs: l.n+1 and l.n-n are int64 operations
    that wrap, p[:l.n+1] panics for a negative bound, and `n = int(l.n)` is returned as is
-   (a negative count when l.n < 0). *)
+   (a negative count when l.n < 0).  The guard is `int64(len(p))-1 > l.n` as in net/http (ec3b610;
+   before, `int64(len(p)) > l.n+1`, whose right-hand side wraps for l.n = 2^63-1): len(p) is a Go
+   int, 0 < len(p) < 2^63 here, so the left-hand side cannot wrap. *)
 Definition mbr_read64 (s : mbr) (m : nat) : r64 (list A * option rerr * mbr) :=
   match m_err s with
   | Some e => R_ok ([], Some e, s)
@@ -88,8 +90,9 @@ Definition mbr_read64 (s : mbr) (m : nat) : r64 (list A * option rerr * mbr) :=
     | O => R_ok ([], None, s)
     | _ =>
       let n1 := wrap64 (m_n s + 1) in
-      if (Z.of_nat m >? n1) && (n1 <? 0) then R_panic else
-      let m' := if Z.of_nat m >? n1 then Z.to_nat n1 else m in
+      let cut := Z.of_nat m - 1 >? m_n s in
+      if cut && (n1 <? 0) then R_panic else
+      let m' := if cut then Z.to_nat n1 else m in
       let '(d, e, u') := u_read (m_u s) m' in
       let k := Z.of_nat (length d) in
       if k <=? m_n s
@@ -198,7 +201,7 @@ Definition cnt_read (s : cst) (m : Z) (answers : list answer)
   | None =>
     if m =? 0 then R_ok (0, None, s, answers) else
     let n1 := wrap64 (c_n s + 1) in
-    if (m >? n1) && (n1 <? 0) then R_panic else
+    if (m - 1 >? c_n s) && (n1 <? 0) then R_panic else
     let '(c, e, rest) := match answers with [] => (0, Some EOF, []) | (c, e) :: r => (c, e, r) end in
     if c <=? c_n s
     then R_ok (c, e, {| c_n := wrap64 (c_n s - c); c_err := e |}, rest)
